@@ -250,3 +250,30 @@ func ZZ_C06_roundtrip_fractional_weights_summing_to_bin_count() {
 	ref, ok := zzRefDecode(b)
 	zzvAssert("reference-decoder-agrees", ok && zzRefTotal(ref.pos) == g.total())
 }
+
+// C09 (round 2): the streaming writer on a paginated store that holds the SAME index several times in its
+// buffer AND with a non-zero count on its page (unit adds followed by a weighted add before any compaction),
+// plus buffered runs without a page and on a second page
+func ZZ_C09_stream_pag_buffer_runs_over_pages() {
+	zzvBound("paginated buffer runs", "paginated stores built by real code: runs of 1-3 unit adds of one index, then a weighted add (weights {3.5, 2}) of the same index, further buffered runs on the same page, on another page and on no page; base index from {0, 37, -70}; both sides")
+	m := zzRealMapping(0)
+	s := NewDDSketch(m, store.NewBufferedPaginatedStore(), store.NewBufferedPaginatedStore())
+	b := []int{0, 37, -70}[zzvChoose("base", 3)]
+	run := 1 + zzvChoose("run", 3)
+	w := []float64{3.5, 2}[zzvChoose("weight", 2)]
+	for _, st := range []store.Store{s.positiveValueStore, s.negativeValueStore} {
+		for k := 0; k < run; k++ {
+			st.Add(b)
+		}
+		st.AddWithCount(b, w)
+		st.Add(b + 1)
+		st.Add(b + 1)
+		st.Add(b + 400)
+		st.Add(b + 400)
+		if zzvChoose("secondPage", 2) == 1 {
+			st.AddWithCount(b+64, w)
+			st.Add(b + 64)
+		}
+	}
+	zzC09StreamOf(s)
+}
